@@ -329,7 +329,13 @@ func (s *bgcSim) bgcEnv() {
 		return
 	}
 	R := int(*cs.Spec.Replicas)
-	cs.Status.ObservedGeneration = cs.Generation
+	if cs.Status.ObservedGeneration != cs.Generation {
+		// the sync that observes a new generation reports the pods it found; what it does to them shows in the next one
+		cs.Status.ObservedGeneration = cs.Generation
+		_ = s.cli.Client.Status().Update(ctx, cs)
+		_ = s.cli.Client.Update(ctx, cs)
+		return
+	}
 	st := &cs.Status
 	never := int64(cs.Spec.MinReadySeconds) >= int64(v1beta1.MaxReadySeconds)
 	scaled := func(v *intstr.IntOrString, up bool) int {
@@ -456,7 +462,8 @@ type bgcWalk struct {
 	// history facts the oracles' guards need
 	lateRelease bool // a revision was admitted while the clean-up was running (known finding releaseWhileFinalising)
 	earlyExit   bool // the rollout was deleted between the admission of a release and its first BatchRelease (exitBeforeBatchRelease)
-	// the rollout was deleted while its success clean-up stood at RouteTrafficToNew, a task the deletion sequence does not contain (finding bgCursorCarried)
+	// the rollout was deleted while its success / rollback clean-up was under way: the deletion sequence continues from the
+	// other sequence's cursor and skips what comes earlier in its own order (finding bgCursorCarried)
 	cursorCarried bool
 	faulted     bool
 	ticks       int
@@ -515,7 +522,8 @@ func (w *bgcWalk) do(label string) {
 		if pre.Ro != nil && pre.Br == nil && pre.World.InProgressAnno {
 			w.earlyExit = true
 		}
-		if pre.Ro != nil && pre.Ro.Sub != nil && pre.Ro.Sub.FinStep == "routeTrafficToNew" && pre.Ro.Phase == "Progressing" {
+		if pre.Ro != nil && pre.Ro.Sub != nil && pre.Ro.Phase == "Progressing" && (pre.Ro.Reason == "finalising" || pre.Ro.Reason == "cancelling") &&
+			pre.Ro.Sub.FinStep != "empty" && pre.Ro.Sub.FinStep != "end_" {
 			w.cursorCarried = true
 		}
 		s.deleteRollout()
@@ -619,13 +627,19 @@ func bgcAt(c *Ctx, sc bgcScenario, when func(bgcCS) bool, labels string, rounds 
 	w.do("release:v2")
 	fired := false
 	stopAt := -1
+	var before, after bgcCS
+	eventAt := 0
 	for r := 0; r < rounds && !w.s.panicked; r++ {
 		for _, l := range bgcRound {
 			if !fired && when(w.s.bgcJoint()) {
 				fired = true
+				before = w.s.bgcJoint()
+				eventAt = len(w.hist)
 				for _, x := range strings.Split(labels, ",") {
 					w.do(x)
 				}
+				after = w.s.bgcJoint()
+				w.terminalAt = -1
 			}
 			if l == "approve" && !w.manualPause() {
 				continue
@@ -639,7 +653,20 @@ func bgcAt(c *Ctx, sc bgcScenario, when func(bgcCS) bool, labels string, rounds 
 			break
 		}
 	}
+	if fired && !w.quiet {
+		w.emitExit(labels, eventAt, before, after)
+	}
 	return w
+}
+
+func (w *bgcWalk) emitExit(labels string, eventAt int, before, after bgcCS) {
+	xs := strings.Split(labels, ",")
+	in := J{"scenario": w.sc, "labels": w.hist, "event": labels, "eventAt": eventAt, "last": xs[len(xs)-1], "before": before, "after": after,
+		"done": w.terminalAt >= 0 && !w.s.panicked, "end": bgcCanon(w.s.bgcJoint()), "rounds": w.ticks}
+	for k, v := range w.flags() {
+		in[k] = v
+	}
+	w.c.EmitAs("closedloopbg", "exit", in, nil)
 }
 
 func bgcPickLabel(c *Ctx, deleted *bool) string {
@@ -746,6 +773,8 @@ func bgcScenarios(c *Ctx, n int) []bgcScenario {
 			Steps: []rsStep{{Replicas: J{"i": 2}, Pause: "short"}, {Replicas: J{"i": 5}, Pause: "manual"}}},
 		{Name: "one-step", Replicas: 3, HasTraffic: true, MinReadySeconds: 30, MaxSurge: J{"i": 2}, MaxUnavailable: J{"i": 0}, SType: "expected",
 			Steps: []rsStep{{Replicas: J{"p": 100}, Weight: w(100), Pause: "manual"}}},
+		{Name: "traffic-then-plain", Replicas: 4, HasTraffic: true, MinReadySeconds: 0, MaxSurge: J{"i": 1}, MaxUnavailable: J{"p": 25}, SType: "expected", HpaV2: []bgHPA{hpa},
+			Steps: []rsStep{{Replicas: J{"p": 50}, Weight: w(50), Pause: "manual"}, {Replicas: J{"p": 100}, Pause: "short"}}},
 	}
 	for i := 0; i < n; i++ {
 		R := 1 + c.Rng.Intn(12)
@@ -832,7 +861,7 @@ func runClosedLoopBG(c *Ctx) {
 	atFin := func(sc bgcScenario, x combo) {
 		bgcAt(c, sc, func(cs bgcCS) bool { return bgcFinStep(cs) == x.at }, x.ev, roundsOf(sc))
 	}
-	for i, sc := range scens {
+	for _, sc := range scens {
 		// the undisturbed fair walk, and disturbed ones that must end in the same state
 		base := bgcFair(c, sc, rel, roundsOf(sc), false)
 		fin, done := base.finalState(), base.terminalAt >= 0 && !base.s.panicked
@@ -860,10 +889,15 @@ func runClosedLoopBG(c *Ctx) {
 				atFin(sc, x)
 			}
 		} else {
-			if i == 0 {
-				// deterministic on every run: the witnesses of the open findings
+			// deterministic on every run: the witnesses of the open findings
+			switch sc.Name {
+			case "traffic-then-plain":
 				atFin(sc, combo{"routeTrafficToNew", "delete"}) // bgCursorCarried
-				atState(sc, combo{"upgrade", "release:v1"})     // a rollback before the first surge pod
+			case "pct-traffic":
+				atState(sc, combo{"upgrade", "release:v1"}) // bgRollbackNoSurge: a rollback before the first surge pod
+				atState(sc, combo{"paused", "release:v1"})  // a rollback with surge pods: completes, partition stays (csPartitionKept)
+			case "int-notraffic":
+				atState(sc, combo{"upgrade", "delete"}) // csPartitionKept: deleted before the first UpgradeBatch
 			}
 			atState(sc, states[c.Rng.Intn(len(states))])
 			atFin(sc, fins[c.Rng.Intn(len(fins))])
@@ -900,6 +934,8 @@ func replayClosedLoopBG(c *Ctx, op string, raw json.RawMessage) {
 		Labels   []string    `json:"labels"`
 		Label    string      `json:"label"`
 		Plan     string      `json:"plan"`
+		Event    string      `json:"event"`
+		EventAt  int         `json:"eventAt"`
 		Baseline J           `json:"baseline"`
 		BaseDone bool        `json:"baseDone"`
 	}
@@ -926,6 +962,23 @@ func replayClosedLoopBG(c *Ctx, op string, raw json.RawMessage) {
 		}
 		c.EmitAs("closedloopbg", "final", J{"scenario": in.Scenario, "plan": in.Plan, "labels": w.hist, "baseline": in.Baseline, "run": w.finalState(),
 			"done": w.terminalAt >= 0 && !w.s.panicked, "baseDone": in.BaseDone, "rounds": w.ticks, "steps": len(in.Scenario.Steps)}, nil)
+	case "exit":
+		w := bgcNewWalk(c, in.Scenario)
+		w.quiet = true
+		var before, after bgcCS
+		n := len(strings.Split(in.Event, ","))
+		for i, l := range in.Labels {
+			if i == in.EventAt {
+				before = w.s.bgcJoint()
+			}
+			w.do(l)
+			if i == in.EventAt+n-1 {
+				after = w.s.bgcJoint()
+				w.terminalAt = -1
+			}
+		}
+		w.quiet = false
+		w.emitExit(in.Event, in.EventAt, before, after)
 	case "proj":
 	}
 }
